@@ -179,7 +179,10 @@ def write_replay(pid, key, msg, payload):
 
 
 OPT_PASS = False
-OPT_SUFFIX = ':python-O'
+OPT_SUFFIX = ':alt-interpreter'
+# how the second pass starts the interpreter: assert statements compiled
+# away, the int <-> str digit limit lifted; logging is set to DEBUG below
+ALT_FLAGS = ['-O', '-X', 'int_max_str_digits=0']
 
 
 def replay_in_subprocess(pid, rel):
@@ -187,7 +190,7 @@ def replay_in_subprocess(pid, rel):
     env = dict(os.environ)
     try:
         p = subprocess.run(
-            [sys.executable] + (['-O'] if OPT_PASS else []) +
+            [sys.executable] + (ALT_FLAGS if OPT_PASS else []) +
             ['-m', 'mc.main', pid, '--replay', rel, '--quiet'],
             cwd=ROOT, env=env, capture_output=True, text=True, timeout=120)
     except subprocess.TimeoutExpired:
@@ -213,7 +216,7 @@ def do_replay(pid, path, quiet=False):
                          else os.path.join(ROOT, path)))
     if doc.get('python_optimize') and not sys.flags.optimize:
         # the finding needs an interpreter started with -O
-        p = subprocess.run([sys.executable, '-O', '-m', 'mc.main', pid,
+        p = subprocess.run([sys.executable] + ALT_FLAGS + ['-m', 'mc.main', pid,
                             '--replay', path] + (['--quiet'] if quiet
                                                  else []), cwd=ROOT)
         return p.returncode
@@ -283,6 +286,15 @@ def main(argv=None):
 
     global OPT_PASS
     OPT_PASS = bool(args.opt_pass)
+    if sys.flags.optimize:
+        # alternative interpreter configuration: every logger enabled at
+        # DEBUG (records go nowhere)
+        import logging
+        logging.disable(logging.NOTSET)
+        root = logging.getLogger()
+        root.setLevel(logging.DEBUG)
+        root.addHandler(logging.NullHandler())
+        logging.getLogger('pydiffx').setLevel(logging.DEBUG)
     if args.replay:
         sys.exit(do_replay(pid, args.replay, args.quiet))
 
@@ -467,7 +479,7 @@ def main(argv=None):
         # the same units once more in an interpreter started with -O
         # (assert statements and __debug__ blocks compiled away)
         cp = subprocess.run(
-            [sys.executable, '-O', '-m', 'mc.main', pid, '--tier', args.tier,
+            [sys.executable] + ALT_FLAGS + ['-m', 'mc.main', pid, '--tier', args.tier,
              '--opt-pass', '--no-evidence', '--workers', str(args.workers)],
             cwd=ROOT, capture_output=True, text=True)
         opt_rc = cp.returncode
@@ -509,7 +521,8 @@ def main(argv=None):
     }
     cov.update(extra)
     if opt_info is not None:
-        cov['python_O_pass'] = opt_info
+        opt_info['interpreter'] = ' '.join(ALT_FLAGS) + ', logging at DEBUG'
+        cov['alt_interpreter_pass'] = opt_info
     ev = {
         'property_id': pid, 'tier': args.tier, 'seed': seed,
         'level': getattr(prop, 'LEVEL', 'model_checking'),
